@@ -1513,3 +1513,107 @@ Proof.
   intros n ids. unfold all_fresh, fresh. rewrite forallb_forall, Forall_forall.
   split; intros H i Hi; specialize (H i Hi); [apply Nat.leb_le|apply Nat.leb_le]; exact H.
 Qed.
+
+(* ==================================================================================== *)
+(* 15. the literal model of a wrapped call satisfies the call oracle                     *)
+(* ==================================================================================== *)
+Section ValInd.
+  Context {G M : Type}.
+  Variable P : @val G M -> Prop.
+  Hypothesis HG : forall c g, P (VGraph c g).
+  Hypothesis HI : forall c g m, P (VInd c g m).
+  Hypothesis HS : forall l, Forall P l -> P (VSeq l).
+  Hypothesis HT : forall l, Forall P l -> P (VTuple l).
+  Hypothesis HN : P VNone.
+  Hypothesis HC : forall s, P (VScalar s).
+  Fixpoint val_ind' (v : @val G M) : P v :=
+    match v with
+    | VGraph c g => HG c g
+    | VInd c g m => HI c g m
+    | VSeq l => HS l ((fix go (l : list val) : Forall P l :=
+                         match l with [] => Forall_nil _ | x :: r => Forall_cons _ (val_ind' x) (go r) end) l)
+    | VTuple l => HT l ((fix go (l : list val) : Forall P l :=
+                           match l with [] => Forall_nil _ | x :: r => Forall_cons _ (val_ind' x) (go r) end) l)
+    | VNone => HN
+    | VScalar s => HC s
+    end.
+End ValInd.
+
+Lemma gcl_eqb_refl : forall c, gcl_eqb c c = true.
+Proof. intros []; reflexivity. Qed.
+
+Lemma list_eqb_refl {X} (e : X -> X -> bool) : forall l, Forall (fun x => e x x = true) l -> list_eqb e l l = true.
+Proof. induction 1; cbn; auto. rewrite H, IHForall. reflexivity. Qed.
+
+Lemma t_val_eqb_seq : forall l r, t_val_eqb (VSeq l) (VSeq r) = list_eqb t_val_eqb l r.
+Proof.
+  unfold t_val_eqb. intros l. cbn [val_eqb]. induction l as [|x l IH]; intros [|y r]; cbn [list_eqb]; try reflexivity.
+  rewrite <- IH. reflexivity.
+Qed.
+
+Lemma t_val_eqb_tuple : forall l r, t_val_eqb (VTuple l) (VTuple r) = list_eqb t_val_eqb l r.
+Proof.
+  unfold t_val_eqb. intros l. cbn [val_eqb]. induction l as [|x l IH]; intros [|y r]; cbn [list_eqb]; try reflexivity.
+  rewrite <- IH. reflexivity.
+Qed.
+
+Lemma t_val_eqb_refl : forall v : tval, t_val_eqb v v = true.
+Proof.
+  induction v as [c g|c g m|l IH|l IH| |s] using val_ind'.
+  - unfold t_val_eqb. cbn. rewrite gcl_eqb_refl, Nat.eqb_refl. reflexivity.
+  - unfold t_val_eqb. cbn. rewrite gcl_eqb_refl, !Nat.eqb_refl. reflexivity.
+  - rewrite t_val_eqb_seq. apply list_eqb_refl. exact IH.
+  - rewrite t_val_eqb_tuple. apply list_eqb_refl. exact IH.
+  - reflexivity.
+  - unfold t_val_eqb. cbn. apply String.eqb_refl.
+Qed.
+
+Lemma t_vals_eqb_refl : forall l : list tval, list_eqb t_val_eqb l l = true.
+Proof. intros l. apply list_eqb_refl. apply Forall_forall. intros x _. apply t_val_eqb_refl. Qed.
+
+Lemma t_kw_eqb_refl : forall kw : list (string * tval), t_kw_eqb kw kw = true.
+Proof.
+  intros kw. unfold t_kw_eqb, kw_eqb. apply list_eqb_refl. apply Forall_forall. intros [k v] _. cbn.
+  rewrite String.eqb_refl. apply t_val_eqb_refl.
+Qed.
+
+Lemma map_kw_ok {G M} (f : @val G M -> res val) (h : val -> val) : forall kw,
+  (forall kv, In kv kw -> f (snd kv) = Ok (h (snd kv))) ->
+  map_kw f kw = Ok (map (fun kv => (fst kv, h (snd kv))) kw).
+Proof.
+  intros kw H. unfold map_kw. apply (map_res_ok (fun kv => bind (f (snd kv)) (fun v => Ok (fst kv, v)))).
+  intros kv Hin. rewrite (H kv Hin). reflexivity.
+Qed.
+
+(* whatever the wrapped function returns (raw), the model of the wrapper passes holds_call *)
+Theorem model_holds_call : forall k (ad : bool) args kw raw,
+  let fa := if ad then @restore nat nat tidR k else @adapt nat nat tid k in
+  let fr := if ad then @adapt nat nat tid k else @restore nat nat tidR k in
+  holds_call (mkCall k ad args kw
+                (bind (map_kw fa kw) (fun kw' => bind (map_res fa args) (fun a' => Ok (a', kw'))))
+                raw
+                (transform fa fr (fun _ _ => Ok raw) args kw)
+                true) = true.
+Proof.
+  intros k ad args kw raw. cbn zeta. unfold holds_call.
+  cbn [c_kind c_adapting c_args c_kwargs c_inner c_raw c_out c_untouched].
+  match goal with |- (if ?c then _ else _) = true => destruct c eqn:Hc end; [|reflexivity].
+  apply andb_true_iff in Hc as [Hc Hr]. apply andb_true_iff in Hc as [Ha Hk].
+  destruct ad.
+  - assert (Hargs : forall a, In a args -> restore tidR k a = Ok (restore_total tidR k a)).
+    { intros a Hin. apply restore_total_ok. eapply forallb_forall in Ha; eauto. }
+    assert (Hkw : forall kv, In kv kw -> restore tidR k (snd kv) = Ok (restore_total tidR k (snd kv))).
+    { intros kv Hin. apply restore_total_ok. eapply forallb_forall in Hk; eauto. }
+    rewrite (transform_spec (restore tidR k) (adapt tid k) (restore_total tidR k) _ _ _ Hargs Hkw).
+    rewrite (map_kw_ok _ _ _ Hkw). cbn [bind]. rewrite (map_res_ok (restore tidR k) (restore_total tidR k) args Hargs). cbn [bind].
+    rewrite (transform_result_spec (adapt tid k) (adapt_total tid k) (adaptable k) raw (adapt_total_ok tid k) Hr).
+    unfold inner_eqb. cbn [res_eqb fst snd]. rewrite t_vals_eqb_refl, t_kw_eqb_refl, t_val_eqb_refl. reflexivity.
+  - assert (Hargs : forall a, In a args -> adapt tid k a = Ok (adapt_total tid k a)).
+    { intros a Hin. apply adapt_total_ok. eapply forallb_forall in Ha; eauto. }
+    assert (Hkw : forall kv, In kv kw -> adapt tid k (snd kv) = Ok (adapt_total tid k (snd kv))).
+    { intros kv Hin. apply adapt_total_ok. eapply forallb_forall in Hk; eauto. }
+    rewrite (transform_spec (adapt tid k) (restore tidR k) (adapt_total tid k) _ _ _ Hargs Hkw).
+    rewrite (map_kw_ok _ _ _ Hkw). cbn [bind]. rewrite (map_res_ok (adapt tid k) (adapt_total tid k) args Hargs). cbn [bind].
+    rewrite (transform_result_spec (restore tidR k) (restore_total tidR k) (restorable k) raw (restore_total_ok tidR k) Hr).
+    unfold inner_eqb. cbn [res_eqb fst snd]. rewrite t_vals_eqb_refl, t_kw_eqb_refl, t_val_eqb_refl. reflexivity.
+Qed.
